@@ -23,10 +23,10 @@ Ltac eval_degrees :=
   end.
 
 Ltac perturbed_prep :=
-  unfold dist2d, curv2d, vol2d, set_vol2d, perim_approx2d, line2d, surface2d, pos2d_0, pos2d_1,
-    unit2d_0, unit2d_1, dist3d, curv3d, volapprox3d, dist3s, curv3s, volapprox3s,
-    pos3d_0, pos3d_1, pos3d_2, unit3d_0, unit3d_1, unit3d_2,
-    pos3s_0, pos3s_1, pos3s_2, unit3s_0, unit3s_1, unit3s_2, vol3d_integrand, vfr_scalar_3;
+  unfold pos2d_0, pos2d_1, unit2d_0, unit2d_1, pos3d_0, pos3d_1, pos3d_2, unit3d_0, unit3d_1, unit3d_2,
+    pos3s_0, pos3s_1, pos3s_2, unit3s_0, unit3s_1, unit3s_2;
+  unfold dist2d, curv2d, vol2d, set_vol2d, perim_approx2d, line2d, surface2d,
+    dist3d, curv3d, volapprox3d, dist3s, curv3s, volapprox3s, vol3d_integrand, vfr_scalar_3;
   cbn [fold_modes sum_below];
   unfold dist2d_step, curv2d_step, perim_approx2d_step, line2d_step, dist3d_step, curv3d_step,
     dist3s_step, curv3s_step;
